@@ -24,7 +24,13 @@ SHARD_TIMEOUT = {"quick": 200, "thorough": 2000}
 def shards(tier, seed):
     dbx = refdb.db()
     pgns = sorted(p for p, ds in dbx.by_pgn.items() if len(ds) > 1)
-    return [{"name": f"pgn-{p}", "pgn": p, "tier": tier, "seed": seed} for p in pgns]
+    out = []
+    for p in pgns:
+        ds = dbx.by_pgn[p]
+        per = 1 if len(ds) > 8 else len(ds)         # big PGNs: one shard per definition (parallelism)
+        for k in range(0, len(ds), per):
+            out.append({"name": f"pgn-{p}-{k}", "pgn": p, "only": [d.id for d in ds[k:k + per]], "first": k == 0, "tier": tier, "seed": seed})
+    return out
 
 
 def observe(dec, pgn, payload, nb):
@@ -41,16 +47,20 @@ def run_shard(spec, acc):
     pgn = spec["pgn"]
     ds = dbx.by_pgn[pgn]
     quick = spec["tier"] == "quick"
-    rng = gen.rng_for(spec["seed"], ID, pgn)
+    rng = gen.rng_for(spec["seed"], ID, spec["name"])
     dec = NMEA2000Decoder()
-    acc.count("multi_definition_pgns")
+    if spec.get("first", True):
+        acc.count("multi_definition_pgns")
     # candidate values per (offset, bits) position, gathered over all siblings
     positions: dict = {}
     for d in ds:
         for f in d.match_fields:
             positions.setdefault((f.off, f.bits), set()).add(f.match)
     cap = 400 if quick else 20000
+    only = set(spec.get("only") or [d.id for d in ds])
     for d in ds:
+        if d.id not in only:
+            continue
         nb_d = d.length if d.length is not None else max((max((f.off + f.bits for f in d.fields if f.off is not None and f.bits is not None), default=8) + 7) // 8, d.min_length or 1)
         nb_d = max(nb_d, 8)
         pos_list = [(f.off, f.bits) for f in d.match_fields] or list(positions)[:1]
